@@ -413,9 +413,15 @@ func (mr *msgReader) Read(p []byte) (n int, err error) {
 		p = p[:n]
 		mr.dict.write(p)
 	}
-	if errors.Is(err, io.EOF) || errors.Is(err, io.ErrUnexpectedEOF) && mr.fin && mr.flate {
-		mr.putFlateReader()
-		return n, io.EOF
+	if errors.Is(err, io.EOF) || errors.Is(err, io.ErrUnexpectedEOF) && mr.flate {
+		// The message ended only if its final frame has been received in full.
+		// Otherwise the EOF is the transport's (errors are wrapped with %w and
+		// so still match io.EOF / io.ErrUnexpectedEOF): the message is truncated.
+		if mr.fin && mr.payloadLength == 0 {
+			mr.putFlateReader()
+			return n, io.EOF
+		}
+		err = fmt.Errorf("connection ended in the middle of a message: %w", io.ErrUnexpectedEOF)
 	}
 	if err != nil {
 		return n, fmt.Errorf("failed to read: %w", err)
